@@ -1,5 +1,6 @@
 import WhVerif.Lemmas.C11
 import WhVerif.Lemmas.C11Geno
+import WhVerif.Lemmas.C11PolyPairs
 /-!
 # C11 — `whatshap compare` reports the defined error counts, independent of haplotype labelling
 
@@ -204,5 +205,53 @@ theorem agreement_zeros_swap_invariant (a b : Hap) (v w : List Nat)
 
 example : (agreementFixed (dipl [0,1,1,0,1]) (dipl [0,0,1,1,1])).map zerosOf = some 2 ∧
     (agreementFixed [flipBits [0,1,1,0,1], [0,1,1,0,1]] [flipBits [0,0,1,1,1], [0,0,1,1,1]]).map zerosOf = some 2 := by decide
+
+/-! ## polyploid switch/flip calculator (`switchflipcalculator.cpp`), ploidy ≤ 4, any number of positions, any costs
+
+`cols` = per position the pair of allele columns.  `Spec.polyBrute` enumerates ALL sequences of haplotype
+correspondences (bijections, enumerated naively) and takes the minimum of
+`sc · Σ (#haplotypes whose partner changes) + fc · Σ (#mismatching alleles)`. -/
+
+/-- the recurrences of the calculator without its pruning compute that minimum (Viterbi argument) -/
+theorem poly_dp_unpruned_optimal (p sc fc : Nat) (hp : p ≤ 4) (cols : List (List Nat × List Nat)) :
+    (polyCompareFull p sc fc cols).1 = (Spec.polyBrute p sc fc cols).1 :=
+  polyCompareFull_eq_brute p sc fc hp cols
+
+/-- the pruning as coded (erase `t` if `score t ≥ score p + sc·d(t,p)` for a profitable `p`, profitable list capped
+at `ploidy` members) never changes the result: every erased entry is dominated by a kept one and `d` is a metric -/
+theorem poly_prune_sound (fixA : Bool) (p sc fc : Nat) (hp : p ≤ 4) (cols : List (List Nat × List Nat)) :
+    (polyCompare fixA p sc fc cols).cost = (polyCompareFull p sc fc cols).1 :=
+  polyCompare_cost_eq_full fixA p sc fc (perms_ne_nil p hp) (perms_length p hp) cols
+
+/-- the calculator as coded returns the minimum over all sequences of haplotype correspondences -/
+theorem poly_dp_optimal (fixA : Bool) (p sc fc : Nat) (hp : p ≤ 4) (cols : List (List Nat × List Nat)) :
+    (polyCompare fixA p sc fc cols).cost = (Spec.polyBrute p sc fc cols).1 :=
+  polyCompare_eq_brute fixA p sc fc hp cols
+
+/-- … and every `(switches, flips)` pair its back-tracking may return (under any hash order of the `unordered_map`s)
+costs exactly that minimum — for ≥ 2 positions, or for the repaired code (fixes/FC11a.patch) -/
+theorem poly_reported_pair_has_optimal_cost (fixA : Bool) (p sc fc : Nat) (hp : p ≤ 4)
+    (cols : List (List Nat × List Nat)) (hq : fixA = true ∨ 2 ≤ cols.length) :
+    ∀ sf ∈ (polyCompare fixA p sc fc cols).admissible,
+      sc * sf.1 + fc * sf.2 = (Spec.polyBrute p sc fc cols).1 := by
+  intro sf hsf
+  rw [← poly_dp_optimal fixA p sc fc hp cols]
+  exact polyCompare_admissible_cost fixA p sc fc cols hq sf hsf
+
+example : (polyCompare true 3 1 1 [([0,0,1],[0,1,0]), ([0,1,1],[1,1,0]), ([1,0,0],[0,1,0])]).admissible ≠ [] := by decide
+
+/-- FC11a: the code as it is reports `ploidy − 1` switches for a single position (two identical triploid columns) -/
+theorem FC11a_witness :
+    (polyCompare false 3 1 7 [([0,0,1],[0,0,1])]).admissible = [(2, 0)] ∧
+    (Spec.polyBrute 3 1 7 [([0,0,1],[0,0,1])]).1 = 0 ∧
+    (polyCompare true 3 1 7 [([0,0,1],[0,0,1])]).admissible = [(0, 0)] := by decide
+
+/-- FC11b: with costs 1/1 the code may return either of two optimal decompositions (2 switches | 2 flips); which one
+depends on iteration order, hence on the order in which the haplotypes are listed; the repaired costs leave one -/
+theorem FC11b_witness :
+    let ph0 : List Hap := [[1,1,0,0],[0,0,0,1],[1,0,1,0]]
+    let ph1 : List Hap := [[1,0,0,1],[0,1,0,0],[1,0,1,0]]
+    (polySwitchFlips true false ph0 ph1 3 4).admissible.length = 2 ∧
+    (polySwitchFlips true true ph0 ph1 3 4).admissible.length = 1 := by decide
 
 end WhVerif.Props.C11
